@@ -69,6 +69,8 @@ func program(name string) *progs.Prog {
 	switch name {
 	case "twostages":
 		return progs.TwoStages(0, 0, 0)
+	case "chain":
+		return progs.Chain(0)
 	}
 	return progs.StoreMap(0, 0)
 }
@@ -321,8 +323,8 @@ func Run(ctx *core.Ctx) int {
 		return core.RunReplay(ctx, Eval)
 	}
 	kinds := []string{PRE, OVERLOAD, MID, POST}
-	maxFaults := 3 // the bound the property names; the retry loop counts attempts per job, so three on one job matter
-	progsList := []string{"storemap", "twostages"}
+	maxFaults := 3                                          // the bound the property names; the retry loop counts attempts per job, so three on one job matter
+	progsList := []string{"storemap", "twostages", "chain"} // chain: the last stage is fed from cached outputs, not from the block stream
 	if ctx.Thorough() {
 		maxFaults = 4
 	}
@@ -364,6 +366,9 @@ func Run(ctx *core.Ctx) int {
 				mods := []string{"s", "m"}
 				if prog == "twostages" {
 					mods = []string{"s0", "s1", "m"}
+				}
+				if prog == "chain" {
+					mods = []string{"src", "acc", "m"}
 				}
 				for _, m := range mods {
 					from := uint64(1)
